@@ -5,6 +5,7 @@ import copy
 import random
 
 from . import qprops
+from . import smallscope as ss
 from .codec import Some, opt, plain
 from .core import Plugin
 
@@ -112,6 +113,24 @@ class C05(Plugin):
             strs = qprops.gen_strings(rng, cur, d, rng.randint(2, 4))
             pairs = qprops.gen_pairs(rng, cur, rng.randint(1, 2))
             yield [recs, d, ops, strs, pairs, []]
+
+    explanation = ("small-scope block: every history of two operations, from the empty converter, over the record universe {a, A, b} x {h/, H/} "
+                   "(one optional CURIE-prefix synonym, one optional URI-prefix synonym) and every combination of case_sensitive / merge "
+                   "(the second operation alternately through add_record and add_prefix); the thorough tier runs the whole block "
+                   "(exhaustive=true refers to that block only), the quick tier a fixed sample of it")
+
+    def exhaustive(self, tier):
+        recs = ss.records(us=["h/", "H/"])
+        strs, pairs = ss.probes(ss.P3, ["h/", "H/"])
+        ops = [[r, cs, mg] for r in recs for cs in (0, 1) for mg in (0, 1)]
+        cases = []
+        n = 0
+        for o1 in ops:
+            for o2 in ops:
+                n += 1
+                cases.append([[], ":", [[o1[0], o1[1], o1[2], 0], [o2[0], o2[1], o2[2], n % 2]], strs, pairs, []])
+        self.exhaustive_flag = tier == "thorough"
+        return ss.block(cases, tier, 400)
 
     def observe(self, case):
         import curies
